@@ -3,6 +3,7 @@ package main
 import (
 	"fmt"
 	"strings"
+	"time"
 
 	"aaverif/internal/plan"
 	"aaverif/internal/ref"
@@ -100,6 +101,11 @@ func stepsOf(sizes []int) []plan.Step {
 	return st
 }
 
+// failureKinds are the errors a scripted source can report. After reporting one it
+// keeps reporting it: a consumer that retries cannot obtain further bytes, so any
+// mnemonic it returns is built from a partially filled buffer.
+var failureKinds = []string{"eof", "ueof", "custom", "eintr", "eagain", "patherr", "temporary", "timeout", "deadline", "noprogress", "shortbuffer", "closedpipe", "wrappedeof"}
+
 func checkC06(e *Env) {
 	drv := e.BuildDrv(false)
 	matrix := newDistinct()
@@ -111,7 +117,8 @@ func checkC06(e *Env) {
 	dist := newDistinct()
 	smp := newSamples(8)
 
-	stats := e.RunStream(StreamOpts{Drv: drv}, func(emit func(*Item)) {
+	// the CPU budget turns a consumer that retries a failed source forever into a verdict
+	stats := e.RunStream(StreamOpts{Drv: drv, CPUBudget: func(*Item) time.Duration { return 10 * time.Second }, Window: 64}, func(emit func(*Item)) {
 		r := rng.New(e.Seed, "C06")
 		langRot := 0
 		langsFor := func() []int {
@@ -129,8 +136,11 @@ func checkC06(e *Env) {
 			need := n + n/3
 			// failures at every point k
 			for k := 0; k < need; k++ {
-				for _, kind := range []string{"eof", "ueof", "custom"} {
+				for ki, kind := range failureKinds {
 					for fname, sizes := range fragmentations(r, k, e.Thorough()) {
+						if ki >= 3 && !e.Thorough() && fname != "one-read" && fname != "none" && fname != "halves" {
+							continue // the less common kinds get two fragmentations in the quick tier
+						}
 						for _, lang := range langsFor() {
 							data := r.Bytes(need + 8)
 							// error returned alone after k bytes
@@ -171,7 +181,7 @@ func checkC06(e *Env) {
 						send(c06exp{n: n, need: need, lang: lang, data: data[:need], steps: stepsOf(sizes), k: -1, frag: fname + "/exact-data"})
 						if rep < 4 {
 							// error alongside the read that completes the delivery (lenient corner)
-							for _, kind := range []string{"eof", "ueof", "custom"} {
+							for _, kind := range failureKinds {
 								st := stepsOf(sizes)
 								st[len(st)-1].E = kind
 								send(c06exp{n: n, need: need, lang: lang, data: data, steps: st, k: -1, kind: kind, alongside: true, frag: fname})
@@ -274,7 +284,7 @@ func checkC06(e *Env) {
 	wantMatrix := 0
 	for _, n := range ref.WordCounts {
 		need := n + n/3
-		wantMatrix += need*3 + (need-1)*3 + need // alone x3 kinds, alongside x3 kinds (k>=1), end-of-data
+		wantMatrix += need*len(failureKinds) + (need-1)*len(failureKinds) + need // alone, alongside (k>=1), end-of-data
 	}
 	if e.Violations() == 0 && matrix.Len() != wantMatrix {
 		fatalInconclusive("C06: failure matrix has %d of %d cells", matrix.Len(), wantMatrix)
@@ -282,7 +292,7 @@ func checkC06(e *Env) {
 	e.WriteEvidence("fault_enumeration", map[string]any{
 		"evaluations":                   stats.Ops,
 		"distinct_nontrivial":           dist.Len(),
-		"rule":                          "a case is a scripted randomness source (bytes, per-read delivery sizes, failure point, failure kind, error alone or alongside the last bytes) x word count x language; enumerated: every failure point k in 0..4n/3-1 for n in {12,15,18,21,24} x {io.EOF, io.ErrUnexpectedEOF, custom error} x {alone, alongside} plus plain end of data, each under several fragmentations (one read, 1-byte reads, halves, (k-1)+1, 1+(k-1), zero-length reads interleaved, seeded random compositions); successes under the same fragmentations incl. zero-leading data; all cases non-trivial (the result is compared with the reference encoding of the delivered prefix, or must be (\"\", non-nil error)); distinct by (data, script, n, language)",
+		"rule":                          "a case is a scripted randomness source (bytes, per-read delivery sizes, failure point, failure kind, error alone or alongside the last bytes) x word count x language; enumerated: every failure point k in 0..4n/3-1 for n in {12,15,18,21,24} x 13 failure kinds (io.EOF, io.ErrUnexpectedEOF, a custom error, EINTR, EAGAIN, *os.PathError, Temporary()/Timeout() errors, os.ErrDeadlineExceeded, io.ErrNoProgress, io.ErrShortBuffer, io.ErrClosedPipe, wrapped EOF; sticky: the source keeps failing) x {alone, alongside} plus plain end of data, each under several fragmentations (one read, 1-byte reads, halves, (k-1)+1, 1+(k-1), zero-length reads interleaved, seeded random compositions); successes under the same fragmentations incl. zero-leading data; all cases non-trivial (the result is compared with the reference encoding of the delivered prefix, or must be (\"\", non-nil error)); distinct by (data, script, n, language)",
 		"samples":                       smp.List(),
 		"failure_matrix_cells_covered":  matrix.Len(),
 		"failure_matrix_cells_possible": wantMatrix,
